@@ -690,7 +690,7 @@ def facts(secret: dict, channel: str, item: dict) -> dict:
 
 def judge(res: Result, item: dict, secrets: list[dict], art: dict, channels: list[str], log: list[dict] | None) -> None:
     on, keys, markers, repl = effective(item["config"])
-    detail_base = {"item": item, "argv": art.get("argv")}
+    detail_base = {"item": item, "run_argv": art.get("argv")}
     shown = {}
     for ch in channels:
         text = art.get(ch)
@@ -759,7 +759,6 @@ def judge(res: Result, item: dict, secrets: list[dict], art: dict, channels: lis
                     kind = "value_missing_with_sanitisation_off" if not on else "redacted_although_name_not_configured"
                     res.violation({"kind": kind, **f}, {**detail_base, "name": s["name"], "value": s["value"],
                                                         "shown": [e for e in (shown[ch] or []) if same_slot(entry=e, secret=s)][:3]})
-            res.traces += 0
     res.count("secrets_judged", len(secrets))
 
 
@@ -801,6 +800,13 @@ def wire_slot_values(g: dict, log: list[dict]) -> list[str]:
     return out
 
 
+def _secret_part(g: dict, full: str) -> str:
+    v = full[len(g.get("prefix", "").strip()):].strip() if full.startswith(g.get("prefix", "").strip()) else full
+    if g["loc"] == "req_cookie":
+        v = v.split("=", 1)[-1]
+    return v
+
+
 def generated_secrets(plan: Plan, log: list[dict]) -> list[dict]:
     """Generated values that are long and plain enough for a substring search (the slot check covers the others)."""
     out = []
@@ -838,7 +844,7 @@ def check_cli(item: dict) -> Result:
             cause = "ValueError_in_writer_thread" if "Exception in thread SchemathesisCassetteWriter" in console and "ValueError" in console \
                 else "writer_thread_exception" if "Exception in thread" in console else "unknown"
             res.violation({"kind": "artefact_destroyed", "channel": ch, "config": item["config"], "group": item["group"], "cause": cause},
-                          {"item": item, "argv": art["argv"], "size": len(text or ""), "console_excerpt": console[console.find("Exception in thread"):][:1800]})
+                          {"item": item, "run_argv": art["argv"], "size": len(text or ""), "console_excerpt": console[console.find("Exception in thread"):][:1800]})
         else:
             channels.append(ch)
             res.count(f"channel_alive:{ch}")
@@ -884,15 +890,25 @@ def judge_generated(res: Result, item: dict, plan: Plan, gen: list[dict], art: d
                     for enc, place in find(ch, text, s):
                         res.outcomes.add("leak")
                         res.violation({"kind": "secret_in_output", **f, "encoding": enc, "place": place},
-                                      {"item": item, "argv": art["argv"], "name": g["name"], "value": s["value"], "excerpt": excerpt(text, s)})
+                                      {"item": item, "run_argv": art["argv"], "name": g["name"], "value": s["value"], "excerpt": excerpt(text, s)})
                 bad = [e for e in slots if repl not in e["value"]]
                 res.count("marker_slots_checked", len(slots))
-                if bad:
-                    res.outcomes.add("leak" if bad[0]["value"].strip() in wire else "not_marked")
-                    res.violation({"kind": "secret_in_output" if bad[0]["value"].strip() in wire else "value_not_replaced_by_marker", **f,
-                                   **({"encoding": "raw", "place": "slot"} if bad[0]["value"].strip() in wire else {})},
-                                  {"item": item, "argv": art["argv"], "name": g["name"], "shown": bad[0]["value"][:200], "expected_marker": repl,
+                # a slot that shows exactly what was sent, and what was sent is not empty, is a leak whatever its length
+                leaked = [e for e in bad if e["value"].strip() in wire and _secret_part(g, e["value"].strip())]
+                unmarked = [e for e in bad if e["value"].strip() not in wire]
+                if not leaked and not unmarked and bad:
+                    res.count("empty_generated_value_shown_as_is", len(bad))  # nothing to hide, nothing judged
+                if leaked:
+                    worst = max(leaked, key=lambda e: len(e["value"]))
+                    res.outcomes.add("leak")
+                    res.violation({"kind": "secret_in_output", **f, "encoding": "raw", "place": "slot"},
+                                  {"item": item, "run_argv": art["argv"], "name": g["name"], "shown": worst["value"][:200], "expected_marker": repl,
                                    "wire": wire[:4]})
+                elif unmarked:
+                    res.outcomes.add("not_marked")
+                    res.violation({"kind": "value_not_replaced_by_marker", **f},
+                                  {"item": item, "run_argv": art["argv"], "name": g["name"], "shown": unmarked[0]["value"][:200],
+                                   "expected_marker": repl, "wire": wire[:4]})
                 elif slots:
                     res.outcomes.add("hidden")
                     res.count(f"hidden:{g['route']}")
@@ -908,7 +924,7 @@ def judge_generated(res: Result, item: dict, plan: Plan, gen: list[dict], art: d
                 else:
                     kind = "value_missing_with_sanitisation_off" if not on else "redacted_although_name_not_configured"
                     res.outcomes.add("over_redacted")
-                    res.violation({"kind": kind, **f}, {"item": item, "argv": art["argv"], "name": g["name"], "wire": wire[:4],
+                    res.violation({"kind": kind, **f}, {"item": item, "run_argv": art["argv"], "name": g["name"], "wire": wire[:4],
                                                         "shown": [e["value"][:80] for e in mine][:4]})
 
 
